@@ -150,14 +150,10 @@ func VerifH_C06_PropRange() {
 		vrt.Reach("proprange/absent")
 		return
 	}
-	inside := (!hasStart || v.After(start)) && (!hasEnd || v.Before(end))
-	outside := (hasStart && v.Before(start)) || (hasEnd && v.After(end))
-	if inside {
-		vrt.Assert(got, "property value strictly inside the time range must match")
-	}
-	if outside {
-		vrt.Assert(!got, "property value outside the time range must not match")
-	}
+	// RFC 4791 9.9: "start" is the inclusive start, "end" the non-inclusive
+	// end of the time range: the value matches iff start <= value < end
+	inside := (!hasStart || !v.Before(start)) && (!hasEnd || v.Before(end))
+	vrt.Assert(got == inside, "property value matches iff it lies in [start, end)")
 	vrt.Reach("proprange/present")
 }
 
